@@ -93,8 +93,9 @@ def purity(ck):
                 extra.append(rng.choice(["READ " + r for r in lvl.READS] + ["SNAP"]))
         with_reads.append(("a%d" % i, g.price, extra))
         without.append(("b%d" % i, g.price, strip_reads(extra)))
-    ra = LevelRun(with_reads, "C").recs
-    rb = LevelRun(without, "C").recs
+    # blind mode: the harness itself performs no read-only call between the operations
+    ra = LevelRun(with_reads, "CB").recs
+    rb = LevelRun(without, "CB").recs
     bad = []
     for x, y, c in zip(ra, rb, with_reads):
         xs = [(o["op"], o["I"]) for o in x["ops"] if not (o["op"].startswith("READ") or o["op"] == "SNAP")]
